@@ -241,3 +241,29 @@ def _over_edges(fn, ok_edges):
             if (a, dd, l2) not in ok_edges:
                 out.add((a, dd, l2))
     return out
+
+
+def rule_fresh_buffer(ctx, facts, rule):
+    """Every datagram is encoded into a buffer created for that attempt: the buffer whose length is tested and which is
+    sent is (re)defined inside the loop body, so a rejected (oversize) encoding cannot leak into the next attempt."""
+    prov = Prov(facts)
+    fn = facts.fn(TR)
+    if fn is None:
+        ctx.fail(rule, TR, "-", "anchor exists", "anchor lost", extra="fresh")
+        return
+    sends = fn.calls_re(r"std::net::udp::UdpSocket::send_to$|UdpSocket::send$", cleanup=False)
+    if not sends:
+        ctx.fail(rule, TR, fn.span, "a send site exists", "none", extra="fresh")
+        return
+    S = sends[0]
+    buf = root_local(fn, fn.term(S)["args"][1])[0]
+    defs = [d for d in fn.defs(buf) if not (d[2].get("lhs") or d[2].get("dest"))["p"]]
+    in_loop = bool(defs) and all(fn.on_cycle(d[0]) for d in defs)
+    grows = [b for b in fn.calls() if not fn.blocks[b]["cleanup"] and fn.term(b)["args"] and fn.term(b)["k"] == "call"
+             and any(a["k"] in ("copy", "move") and root_local(fn, a)[0] == buf and i > 0 for i, a in enumerate(fn.term(b)["args"]))
+             and re.search(r"JaegerReporter::serialize$|compact_encode$|extend\w*$|Write>?::write\w*$", fn.term(b)["callee"])]
+    ctx.check(in_loop and not grows, rule, TR, fn.loc(S),
+              "the byte buffer that is measured and sent is produced anew on every loop iteration (not appended to across attempts)",
+              "buffer _%d defined at %s" % (buf, [fn.loc(d[0]) for d in defs]),
+              "buffer _%d is defined outside the loop / appended to by %s: an oversize encoding stays in it and poisons the "
+              "following attempts" % (buf, [fn.term(b)["callee"] for b in grows]), extra="fresh-buffer")
